@@ -103,3 +103,13 @@ package server
 //@         ($cst == nil) == (checksumType == nil) && ($cst != nil ==> *$cst == *checksumType) &&
 //@         (metadata != nil ==> $o != nil && $o.Metadata == metadata) && (storageClass != nil ==> $o != nil && $o.StorageClass == storageClass) &&
 //@         (taggingValue != "" ==> $o != nil && same($o.Tags, tags))
+
+// C11 / C07. PutObject: the conditional-write preconditions, tags, metadata and storage class the request supplied all
+// reach the storage together with the key, content type, body and checksum input of this request.
+//@ func (*Server).putObjectHandler
+//@ mode effects
+//@ effect[C11:object-put-with-every-supplied-value] every s.storage.PutObject(_, $b, $k, $ct, _, $ci, $o)
+//@     where $b == bucketName && $k == key && ($ct == nil) == (contentType == nil) && ($ct != nil ==> *$ct == *contentType) && $ci == checksumInput &&
+//@         (metadata != nil ==> $o != nil && $o.Metadata == metadata) && (storageClass != nil ==> $o != nil && $o.StorageClass == storageClass) &&
+//@         (taggingValue != "" ==> $o != nil && same($o.Tags, tags)) &&
+//@         (ifMatch != nil ==> $o != nil && $o.IfMatchETag != nil && *$o.IfMatchETag == *ifMatch) && (ifNoneMatch != nil ==> $o != nil && $o.IfNoneMatchStar)
